@@ -183,6 +183,11 @@ func checkReq(seq []spec) error {
 	for i, s := range seq {
 		in[i] = s.req()
 	}
+	return checkReqOn(seq, in)
+}
+
+// checkReqOn judges the fold of the given action objects, whose content is described by seq.
+func checkReqOn(seq []spec, in []actions.ReqLunarAction) error {
 	res := foldReq(in)
 	if res == nil {
 		return fmt.Errorf("fold produced a nil action")
@@ -359,7 +364,16 @@ func runResp(seq []spec) actions.RespLunarAction {
 }
 
 func checkResp(seq []spec) error {
-	res := runResp(seq)
+	in := make([]actions.RespLunarAction, len(seq))
+	for i, s := range seq {
+		in[i] = s.resp()
+	}
+	return checkRespOn(seq, in)
+}
+
+// checkRespOn judges the fold of the given action objects, whose content is described by seq.
+func checkRespOn(seq []spec, in []actions.RespLunarAction) error {
+	res := foldResp(in)
 	if res == nil {
 		return fmt.Errorf("fold produced a nil action")
 	}
